@@ -1,0 +1,38 @@
+// I/O pipe histories on a real IoSender / IoReceiver pair, driven single-threaded.
+
+use crate::io::make_io;
+use std::io::{Read, Write};
+use std::time::Duration;
+use super::dec_bytes;
+
+pub fn pipe_case(spec: &str) -> String {
+    let (mut tx, mut rx) = make_io(Duration::from_millis(1));
+    let mut answers = vec![];
+    for op in spec.split(';') {
+        let w = op.trim().split(' ').collect::<Vec<_>>();
+        if w.is_empty() || w[0].is_empty() {
+            continue;
+        }
+        let ans =
+        match w[0] {
+            "w" => {
+                let bytes = dec_bytes(w[1]);
+                match tx.write(&bytes) { Ok(n) => format!("w{n}"), Err(_) => "werr".to_string() }
+            },
+            "f" => {
+                match tx.flush() { Ok(_) => "f".to_string(), Err(_) => "ferr".to_string() }
+            },
+            "r" => {
+                let n = w[1].parse::<usize>().unwrap();
+                let mut buf = vec![0u8; n];
+                match rx.read(&mut buf) {
+                    Ok(k)  => format!("r{}", if k == 0 {"-".to_string()} else {buf[0 .. k].iter().map(|b| b.to_string()).collect::<Vec<_>>().join(".")}),
+                    Err(e) => if e.kind() == std::io::ErrorKind::TimedOut {"timeout".to_string()} else {"rerr".to_string()},
+                }
+            },
+            other => panic!("unknown pipe op {other}"),
+        };
+        answers.push(ans);
+    }
+    answers.join(" ; ")
+}
